@@ -361,29 +361,30 @@ PROPS = {
 # ---- C17 / C18: network I/O (wp-io). PARTIAL BY NATURE: the kernel is an environment with a contract, not verified.
 TB_IO = TB_COMMON + [
     "the Linux kernel (epoll edge semantics, TCP / Unix byte streams, datagram queues, eventfd, monotonic clock) is an adversarial ENVIRONMENT with the contract stated in Model/Io.lean (byte FIFO per direction; read = non-empty prefix or EAGAIN iff empty, 0 only after shutdown and drain; write = non-empty prefix or EAGAIN iff full; datagrams atomic; an edge event is queued whenever data/space/a connection ARRIVES); it is assumed, not verified; the replay inserts the unobservable kernel steps, so the contract itself is not checked against the traces",
-    "results of the non-blocking system calls, io-timer arm/set/disarm/fire and del_fd are reported by cfg(may_verif) hook points next to - not atomically with - the call / the timer-handle cell access: their position in the log can be later than the kernel's (the cell's) own linearization; the replay accepts a disarm event, or its absence, whatever the model's idea of `handle present` is when a timer fires while the handle is being stored",
+    "results of the non-blocking system calls and del_fd are reported by cfg(may_verif) hook points next to - not atomically with - the call: their position in the log can be later than the kernel's own linearization. The io-timer marks (t.armed / t.own / t.stale / t.disarm) are made under the lock of the timer-handle cell on a tree with fix: io-timer-handle-race: there the replay is strict (a disarm event is there iff the model's cell holds a handle); on a tree without it (RefCell) the replay accepts a disarm event, or its absence, whatever the model's idea of `handle present` is",
     "the scheduler (run queues, work stealing, resume of a scheduled coroutine) and the timer list (mpsc_list_v1 entries) are abstracted: `queued` flag, entry states armed/disarmed/gone (C01/C04/C08/C19 are their own checks); epoll registration life-time (fd numbers) is not in the model (fix aafec99 is covered by the family io_unix_churn only)",
     "one operation at a time per IoData (the API contract of &mut self / split / try_clone), and no drop of a socket while an operation is in progress on it, are built into the model (`user`)",
-    "the model is of /repo HEAD with the io fixes 128a1d4 999f25c 8f0e7f9 (`init`); the variant with pending_fixes/io-stale-set_io.patch (register for cancel before publication) is in the model too (`regFirst`, discovered from the trace) but no theorem is about it; the pinned tree (`initPinned`) only carries the labelled witnesses",
+    "wp-io3: model of the repaired io code (`init` = /repo with 128a1d4 999f25c 8f0e7f9 + fix: io-timer-handle-race + fix: io-stale-set_io; every theorem is about it); the trees without one of the two repairs are model variants (`fixOwn` / `regFirst` = false, `initHead`; `initPinned` for the older defects) that carry the labelled witnesses only; the replay selects the variant from the scenario header (`timerfix=` / `regfirst=`), which the harness derives from the source it was built against ($VERIF_REPO/src/io/sys/unix/mod.rs has `pub fn arm_timer`; net/socket_read.rs calls `set_io` before `co.store`)",
 ]
 IO_ASSUME = [
     "quantitative real time is not asserted: live oracles use wall-clock LOWER bounds only, completion is the watchdog's business",
     "fair scheduling for the quiescence-form theorems (io_no_missed_edge, io_blocked_caller_is_served, io_timeout_returns): quiescent = every kernel tail finished, every selector / timer / canceller thread between two events",
-    "OPEN FINDINGS on /repo HEAD (pending_fixes/README-io.md no. 5 and 6, patches io-timer-handle-race.patch, io-stale-set_io.patch): (5) the io timer-handle cell is an unsynchronised RefCell and `with_mut_data` panics on a popped entry - a timer that fires while its operation is being completed kills a worker thread (hang, `vh live io_timeout_race` with 2-3 workers); a timeout handler delayed before its co.take can take the coroutine of a LATER wait and leave that wait's timer armed (Lean: io_stalled_timer_handler_witness; SIGSEGV in the race family when the socket is closed meanwhile). Until the patch is in, time-outs below 20 ms are opt-in (VH_IO_SMALL_TIMEOUTS=1) and the family io_timeout_race is not in the default list (line below, commented); (6) the io subscribes register for cancel after publication: a tail delayed past a whole later operation re-registers a stale socket (io-stale-set_io.patch; the check accepts both orders)",
-    "FIXED findings, now regression scenarios run by default: use-after-publish in subscribe (sockets dropped right after use, threads end with their work, may's connect under perturbation - 128a1d4), cancel leaves the io timer armed (io_cancel_shared - 8f0e7f9), CoIo closes before EPOLL_CTL_DEL (io_unix_churn, io_unix_iter - aafec99), io timer armed before publication (999f25c: default io_timeout with VH_IO_SMALL_TIMEOUTS=1 and io_timeout_race once (5) is fixed)",
+    "findings 5 (F26, timer-handle race) and 6 (F27, stale set_io) are repaired in /repo by fix: io-timer-handle-race and fix: io-stale-set_io; the model is of the repaired code, the defects are the witnesses io_stalled_timer_handler_witness / io_stale_set_io_witness on `initHead`. No scenario shape is opt-in any more: on a tree without the first repair the families io_timeout / io_timeout_race fail with the stable prefix `F26:` (a runtime thread panicked in RefCell::borrow_mut / with_mut_data, an operation without a time-out got TimedOut, a timed read never returned), on a tree without the second the two-socket victim of io_cancel fails with `F27:` (the cancelled coroutine is never resumed)",
+    "FIXED findings, regression scenarios run by default: use-after-publish in subscribe (sockets dropped right after use, threads end with their work, may's connect under perturbation - 128a1d4), cancel leaves the io timer armed (io_cancel_shared - 8f0e7f9), CoIo closes before EPOLL_CTL_DEL (io_unix_churn, io_unix_iter - aafec99), io timer armed before publication (999f25c: io_timeout with time-outs from 0.3 ms, io_timeout_race), timer-handle race (io_timeout_race, io_timeout), stale set_io (io_cancel victim=two_sock)",
 ]
 PROPS["C17"] = dict(
     lean_props=["MayVerif.Props.C17"],
     families=[
         dict(mode="live", name="io_stream", quick=240, thorough=2400, nontrivial=r"io\.sys\.unix\.mod\.co@\S+ opt\.store ", timeout=600),
         dict(mode="live", name="io_unix_churn", quick=12, thorough=36, nontrivial=r"io\.sys\.unix\.mod\.co@\S+ opt\.store ", timeout=600),
-        dict(mode="live", name="io_unix_iter", quick=48, thorough=240, nontrivial=r" sys\.accept ", timeout=600),
+        dict(mode="live", name="io_unix_iter", quick=72, thorough=360, nontrivial=r" sys\.accept ", timeout=600),
     ],
     trusted_base=TB_IO,
     assumptions=IO_ASSUME + [
         "stream_preserved / datagram_boundaries are theorems over the kernel contract plus the library's pass-through of the last non-EAGAIN system-call result; that the library adds no buffering of its own is what the live byte-for-byte oracles check",
+        "the hand-over of a plain-thread caller to its proxy coroutine (tx.send + thread::park) is a silent step of the model: finding 7 (the thread parked once, any other unpark let it go on with the proxy still holding a pointer into its stack; fix: io-thread-park-token) is covered by the io_unix_churn oracle `F28:` and by the correspondence, not by a theorem",
     ],
-    rule="live mode, real sockets on loopback / socketpair: io_stream = TcpStream and UnixStream (1-2 connections, 1-4 in the thorough tier; payload 0 .. 150 KB, .. 600 KB thorough; seeded write chunkings, read buffer sizes, SO_SNDBUF/SO_RCVBUF 2-16 KB, coroutine and plain-thread callers on both ends, may's accept and connect, sockets dropped right after use), UDP and Unix datagrams (1-12 / 1-40 datagrams of 0-1400 bytes); oracles: received == sent byte for byte and in order, read returns 0 only after the writer shut down and everything was delivered, write never accepts 0 or more than offered, every datagram arrives with its size and content; io_unix_churn = 3-5 pairs of threads create Unix socket pairs, block in a read, feed it and drop both ends, 60 (200) rounds each, concurrently (fd-number reuse: a reader must never stay blocked); io_unix_iter = the shape of the crate's test os::unix::net::test::iter (a coroutine accepts 2-6 connections in turn and reads a byte from each, a thread connects, writes, drops); completion by watchdog; non-trivial = at least one operation really blocked and registered its coroutine; distinct = SHA-1 of the canonical trace",
+    rule="live mode, real sockets on loopback / socketpair: io_stream = TcpStream and UnixStream (1-2 connections, 1-4 in the thorough tier; payload 0 .. 150 KB, .. 600 KB thorough; seeded write chunkings, read buffer sizes, SO_SNDBUF/SO_RCVBUF 2-16 KB, coroutine and plain-thread callers on both ends, may's accept and connect, sockets dropped right after use), UDP and Unix datagrams (1-12 / 1-40 datagrams of 0-1400 bytes); oracles: received == sent byte for byte and in order, read returns 0 only after the writer shut down and everything was delivered, write never accepts 0 or more than offered, every datagram arrives with its size and content; io_unix_churn = 3-5 pairs of threads create Unix socket pairs, block in a read, feed it and drop both ends, 60 (120) rounds each, concurrently (fd-number reuse: a reader must never stay blocked), in half of the scenarios the readers leave a stale park token on their thread before every 3rd / 7th read (finding 7: a reader that never comes back, 6 s without any hooked event, is the oracle failure `F28:`); io_unix_iter = the shape of the crate's test os::unix::net::test::iter (a coroutine accepts 2-6 connections in turn and reads a byte from each, a thread connects, writes, drops) and, in half of the scenarios, kind=burst: ACCEPT BURST on a TcpListener or UnixListener, acceptor coroutine or plain thread: 0-2 sequential connect / accept pairs, then 2-8 (2-32 thorough) clients (std threads, may coroutines) connect while the acceptor sleeps, nobody connects afterwards; the acceptor must accept them all (greeting with client id + seed byte and an ack per connection, no client handed out twice; `hang: the acceptor is stranded` after 5 s without any hooked event); completion by watchdog; non-trivial = at least one operation really blocked and registered its coroutine; distinct = SHA-1 of the canonical trace",
     explanation="PARTIAL BY NATURE: kernel = environment with contract; promptness measured, never asserted",
 )
 PROPS["C18"] = dict(
@@ -392,17 +393,16 @@ PROPS["C18"] = dict(
         dict(mode="live", name="io_timeout", quick=96, thorough=1200, nontrivial=r" t\.(fire|disarm) ", timeout=900),
         dict(mode="live", name="io_cancel", quick=180, thorough=2400, nontrivial=r"cancel\.state@\S+ fetch_or ", timeout=600),
         dict(mode="live", name="io_cancel_shared", quick=24, thorough=240, nontrivial=r"cancel\.state@\S+ fetch_or ", timeout=900),
-        # enable once pending_fixes/io-timer-handle-race.patch is in /repo (on HEAD it hangs in about 1 of 5 processes with 2-3 workers):
-        # dict(mode="live", name="io_timeout_race", quick=96, thorough=1200, nontrivial=r" t\.(fire|disarm) ", timeout=900),
+        dict(mode="live", name="io_timeout_race", quick=96, thorough=1200, nontrivial=r" t\.(fire|disarm) ", timeout=900),
     ],
     trusted_base=TB_IO,
     assumptions=IO_ASSUME + [
-        "F2 (AtomicDuration truncation) is fixed in /repo: io_timeout_not_early is about the rounding-up conversion and holds for every duration; the default io_timeout family uses 20-64 ms (1-64 ms with VH_IO_SMALL_TIMEOUTS=1) plus 0 / 1 / 250 / 500 / 999 us for the expiring operations and 400-700 ms for the fed ones, the race family 0.3-3 ms",
+        "F2 (AtomicDuration truncation) is fixed in /repo: io_timeout_not_early is about the rounding-up conversion and holds for every duration; the io_timeout family uses 0.3 / 0.7 ms and 1-64 ms plus 0 / 1 / 250 / 500 / 999 us for the expiring operations and 400-700 ms for the fed ones, the race family 0.3-3 ms",
         "TcpListener / UnixListener have no accept time-out in may's API and no loopback address black-holes a connect, so time-outs are exercised on read (TCP, Unix stream) and recv_from (UDP)",
-        "cancel: io_cancel_timer_disarmed (every reachable state) and io_cancel_ends_with_cancel_partial (step level plus the two sequential register-then-recheck runs); the all-interleavings form of `a cancelled coroutine is not left suspended` is open and needs the stale-registration exclusion (finding 6); write/send do not register for io cancel in the code",
+        "cancel: io_cancel_ends_with_cancel is the all-interleavings quiescence form (cancel bit set, blocked in a REGISTERING operation - read / recv / accept / connect - and everything quiet => in a run queue), io_cancel_resumed_is_cancel the steps around it; write / send do not register for io cancel in the code (they are cancelled when they are resumed for another reason): not covered by the theorem, not a finding",
     ],
-    rule="live mode, real sockets: io_timeout = 2-4 (2-7 thorough) operations on ONE socket (TCP, Unix stream, UDP; coroutine or thread reader): `idle` read with a 20-64.999 ms time-out (whole and non-integral milliseconds) and nothing sent (must fail with TimedOut, elapsed >= time-out, no upper bound), `fed` read with 400-700 ms and data after 0-3 ms (data, or a not-early time-out on a slow machine and the data in a later read), `after` read with NO or a 4x longer time-out right after a timed one, data after the earlier deadline (must not fail / return early); io_cancel = a coroutine blocked in TCP/Unix read (optionally with a 1.5 s time-out armed, optionally after consuming 1-2000 bytes) or in accept is cancelled after 0-3000 us by main or a thread, 0-1 (0-2) other connections transfer concurrently: join returns the Cancel error, the victim's captured state is dropped exactly once, its peer reads EOF, the other transfers pass the stream oracle; io_cancel_shared = a coroutine blocked in recv_from with a 40-100 ms time-out on an Arc<UdpSocket> is cancelled, a survivor then blocks WITHOUT a time-out on the same socket and is fed after the stale deadline (must get the datagram, never TimedOut); non-trivial = a timer fired or was disarmed / a cancel was issued; distinct = SHA-1 of the canonical trace",
-    explanation="PARTIAL BY NATURE: kernel and clock = environment; promptness measured, never asserted. The pinned-tree defects are labelled witnesses on the model variant initPinned and regression families; open findings 5 and 6: pending_fixes/README-io.md",
+    rule="live mode, real sockets: io_timeout = 2-4 (2-7 thorough) operations on ONE socket (TCP, Unix stream, UDP; coroutine or thread reader): `idle` read with a 0.3-64.999 ms time-out (sub-millisecond, whole and non-integral milliseconds) and nothing sent (must fail with TimedOut, elapsed >= time-out, no upper bound), `fed` read with 400-700 ms and data after 0-3 ms (data, or a not-early time-out on a slow machine and the data in a later read), `after` read with NO or a 4x longer time-out right after a timed one, data after the earlier deadline (must not fail / return early); io_timeout_race = the same with 0.3-3 ms time-outs only (the timer fires while its wait is being set up / completed / already over); a runtime thread that panics inside src/io or the timer list, and a reader that never comes back (4 s without any hooked event), are oracle failures `F26:`; io_cancel = a coroutine blocked in TCP/Unix read (optionally with a 1.5 s time-out armed, optionally after consuming 1-2000 bytes), in accept, or - victim=two_sock - in a read on socket B right after a read on socket A that blocked and was served, is cancelled after 0-3000 us by main or a thread, 0-1 (0-2) other connections transfer concurrently: join returns the Cancel error (a victim that is never resumed, 2.5 s without any hooked event: `F27:`), the victim's captured state is dropped exactly once, its peer(s) read EOF, the other transfers pass the stream oracle; io_cancel_shared = a coroutine blocked in recv_from with a 40-100 ms time-out on an Arc<UdpSocket> is cancelled, a survivor then blocks WITHOUT a time-out on the same socket and is fed after the stale deadline (must get the datagram, never TimedOut); non-trivial = a timer fired or was disarmed / a cancel was issued; distinct = SHA-1 of the canonical trace",
+    explanation="PARTIAL BY NATURE: kernel and clock = environment; promptness measured, never asserted. The defects of the trees without the io fixes are labelled witnesses on the model variants initPinned / initHead and regression shapes of the default families (pending_fixes/README-io.md, pending_fixes/wp-io3/README.md)",
 )
 
 PROPS["C13"] = dict(
